@@ -14,7 +14,6 @@ import (
 	"math"
 	"strconv"
 	"strings"
-	"time"
 
 	"verif/harness/shape"
 )
@@ -163,7 +162,7 @@ func flatToRec(f Flat) *shape.Rec {
 	r.G = float32(fdecode(f.K[shape.FG]))
 	r.S = sdecode(f.K[shape.FS])
 	r.K = sdecode(f.K[shape.FK])
-	r.T = time.Unix(0, idec(f.K[shape.FT])).UTC()
+	r.T = timeOf(idec(f.K[shape.FT]))
 	nb := f.R % 4
 	if nb&1 == 0 {
 		r.N = &shape.Nested{X: int32(idec(f.K[shape.FNX])), Y: sdecode(f.K[shape.FNY])}
@@ -238,7 +237,7 @@ func keyValue(tok string, field int, native bool) interface{} {
 					return int8(v)
 				}
 			case shape.FT:
-				return time.Unix(0, v)
+				return timeOf(v)
 			case shape.FNX:
 				if v >= math.MinInt32 && v <= math.MaxInt32 {
 					return int32(v)
